@@ -9,7 +9,7 @@ class P(Symbol):
 bad=0
 def check(name, f, want):
     global bad
-    try: got=sorted(f())
+    try: got=sorted(set(f()))  # membership is what the property states; the union form of or_ may repeat a value
     except Exception as e: got=repr(e)[:70]
     ok = got==sorted(want); bad += not ok
     print(name, "got", got, "want", sorted(want), "OK" if ok else "WRONG")
